@@ -21,6 +21,7 @@ BASE = dict(
     Reqs=S(2, 4), Vols=S(0, 1, 3), Modes=S("on"), TrigSets=S("none", "final", "partial"),
     TopUps=S(6), MaxSteps=5, MaxSess=1, Limit=100, Pads=S(0), CreateConts=S(0),
     TwoEntries=False, BadRefs=False, WellBehaved=False, AskAfterFinal=True, KnownDebitNoFui=True, Lrsn0=0, Recharges=True, Traffic=S(), SinkAnswers=S(204), AddrKinds=S("none"), ContShapes=S("single"), ChidModes=S(0), UpdNfcs="{FALSE}",
+    Events=False, EvTypes=S(""),
 )
 
 # clause -> invariant of ChfSeqMC that states it on the model
@@ -125,6 +126,12 @@ def cfg(pid, tier):
             # two sessions of one subscriber sharing a rating group; two subscribers
             sl("two-sess", 500 if q else 6000, Subs=S("1", "2"), MaxSess=2, MaxSteps=4 if q else 5, Vols=S(0, 3), Reqs=S(4),
                AcctChoices=S((5, 1), (9, 2)), TopUps=S(), TrigSets=S("none", "final")),
+            # offline and online charging of the same rating group in turn (a rating group first seen offline), two sessions
+            sl("off-on", 500 if q else 5000, MaxSess=2, MaxSteps=4 if q else 5, Vols=S(0, 3), Reqs=S(4), Modes=S("on", "off"),
+               AcctChoices=S((9, 2)), TopUps=S(), TrigSets=S("none", "final"), Recharges=False),
+            # event based charging (one-time events) next to the sessions of the same subscriber
+            sl("events", 300 if q else 3000, Events=True, MaxSteps=4 if q else 5, Vols=S(3), Reqs=S(4), AcctChoices=S((9, 2)),
+               TopUps=S(), TrigSets=S("none", "final"), Recharges=False),
         ]
     elif pid == "C06":
         wb = dict(WellBehaved=True, AcctChoices=S((5, 1), (7, 2), (0, 3), (40, 1)), Reqs=S(2, 4), Vols=S(0, 2, 4))
@@ -159,6 +166,9 @@ def cfg(pid, tier):
                 sl("two-rg", 300, RGs=S("1", "2"), TwoEntries=True, MaxSess=2, MaxSteps=3, Modes=S("on", "off"), Limit=6,
                    TrigSets=S("none", "partial", "final"), **base),
                 addr,
+                # one-time events of a subscriber that also has sessions (their records share the subscriber's file)
+                sl("events", 500, Events=True, EvTypes=S("", "IEC"), MaxSess=2, MaxSteps=4, CreateConts=S(0), Modes=S("off"),
+                   TrigSets=S("none", "partial"), **base),
             ]
         else:
             slices = [
@@ -169,6 +179,8 @@ def cfg(pid, tier):
                 sl("two-rg", 4000, RGs=S("1", "2"), TwoEntries=True, MaxSess=2, MaxSteps=4, Modes=S("on", "off"), Limit=6,
                    TrigSets=S("none", "partial", "final"), **base),
                 addr,
+                sl("events", 4000, Events=True, EvTypes=S("", "IEC", "PEC"), MaxSess=2, MaxSteps=5, CreateConts=S(0), Modes=S("off"),
+                   TrigSets=S("none", "partial"), **base),
             ]
         if pid == "C02":
             extra = tz_scenarios()
@@ -182,6 +194,11 @@ def cfg(pid, tier):
             # consumers whose names extend one another, charging ids that coincide between consumers, requests that repeat
             # the consumer identification
             sl("names", 800 if q else 6000, Consumers=S("", "smf", "smf-1"), ChidModes=S(0, 5), UpdNfcs="{TRUE, FALSE}", MaxSess=3,
+               Modes=S("off"), Reqs=S(), Vols=S(1), TrigSets=S("none"), TopUps=S(), Recharges=False, AcctChoices=S((9, 1)),
+               MaxSteps=4 if q else 5),
+            # names that need escaping inside a path segment; creates that carry oneTimeEventType (with and without being an
+            # event); one-time events between the sessions
+            sl("kinds", 800 if q else 6000, Consumers=S("a%41", "x y", "50%"), Events=True, EvTypes=S("", "IEC", "PEC"), MaxSess=2,
                Modes=S("off"), Reqs=S(), Vols=S(1), TrigSets=S("none"), TopUps=S(), Recharges=False, AcctChoices=S((9, 1)),
                MaxSteps=4 if q else 5),
         ]
